@@ -89,6 +89,39 @@ func genCases(seed int64, n, length int, scale string, multi bool, features stri
 			cases[i] = c
 			continue
 		}
+		if features == "impexp" {
+			// export l1, import into l2 (same or other bucket), then write on the copy through every API path
+			src := g.History(length)
+			bucket := []string{"b2", "b1"}[i%2]
+			post := func(api string, k int) drive.Op {
+				o := drive.Op{K: "create", L: "l2", Now: 9, API: api,
+					Ps: []drive.Posting{{S: "world", D: []string{"alice", "bob", "zed"}[k%3], As: "USD", N: 1 + k}}}
+				o.Norm()
+				o.IKIn = 900 + k
+				return o
+			}
+			imp := drive.Op{K: "import", L: "l2", Src: "l1", Now: 9}
+			imp.Norm()
+			switch i % 4 {
+			case 0, 1: // the nominal path, the three write paths in rotating order
+				apis := [][]string{{"v2", "bulk", "bulk-atomic"}, {"bulk-atomic", "v2", "bulk"}, {"bulk", "bulk-atomic", "v2"}}[i%3]
+				c.Ops = append(append(src, imp), post(apis[0], 0), post(apis[1], 1), post(apis[2], 2))
+				rv := drive.Op{K: "revert", L: "l2", ID: 1, Now: 9, Force: true}
+				rv.Norm()
+				rv.IKIn = 950
+				c.Ops = append(c.Ops, rv)
+				c.Ledgers = []drive.CaseLedger{{Name: "l1", Bucket: "b1"}, {Name: "l2", Bucket: bucket, CreateAt: len(src)}}
+			case 2: // a ledger that accepted a write refuses the import; importing twice is refused too
+				c.Ops = append([]drive.Op{post("v2", 0)}, src...)
+				c.Ops = append(c.Ops, imp)
+				c.Ledgers = []drive.CaseLedger{{Name: "l1", Bucket: "b1"}, {Name: "l2", Bucket: bucket}}
+			default:
+				c.Ops = append(append(src, imp), imp, post("bulk-atomic", 1), imp)
+				c.Ledgers = []drive.CaseLedger{{Name: "l1", Bucket: "b1"}, {Name: "l2", Bucket: bucket, CreateAt: len(src)}}
+			}
+			cases[i] = c
+			continue
+		}
 		c.Ops = g.History(length)
 		var feat map[string]string
 		switch features {
